@@ -462,6 +462,19 @@ def _segments(node, inl):
         if isinstance(n, ast.BinOp) and isinstance(n.op, ast.Add):
             flat(n.left)
             flat(n.right)
+        elif isinstance(n, ast.Call) and A.call_name(n) == "tuple" and len(n.args) == 1 and isinstance(n.args[0], ast.Call) \
+                and (A.call_name(n.args[0]) or "").split(".")[-1] == "chain" and n.args[0].args and not n.args[0].keywords:
+            # tuple(chain(g1, g2, ..)) == tuple(g1) + tuple(g2) + ..
+            for g_ in n.args[0].args:
+                if isinstance(g_, (ast.GeneratorExp, ast.ListComp)):
+                    flat(ast.Call(func=ast.Name(id="tuple", ctx=ast.Load()), args=[g_], keywords=[]))
+                else:
+                    flat(g_)
+        elif isinstance(n, ast.Tuple) and n.elts and all(isinstance(e, ast.Starred) for e in n.elts):
+            # (*g1, *g2) likewise
+            for e in n.elts:
+                v_ = e.value
+                flat(ast.Call(func=ast.Name(id="tuple", ctx=ast.Load()), args=[v_], keywords=[]) if isinstance(v_, (ast.GeneratorExp, ast.ListComp)) else v_)
         else:
             out.append(n)
     flat(node)
@@ -545,6 +558,34 @@ def _seq_corresponds(mseq, nseq, prov):
         return prov.get(nn.group(3)) == mm.group(3) if nn.group(3) in prov else None
     return None
 
+def discover_triples(f):
+    """(signature name, hfs name, mfs name) of every result `X._replace(struct=ST, hfs=H, mfs=M, ..)` of function f, the signature being
+    the local that enumerates `.struct.s` and was handed to the call that produced ST; [] when nothing is recognised"""
+    b = A.local_bindings(f.node)
+    sig_cands = {nm for nm, ds in b.items() if any(k == "assign" and v is not None and any(sg[0] == "struct.s" for sg in _segments(v, None)) for st_, v, k in ds)}
+    found = []
+    n_repl = sum(1 for c in A.calls(f.node) if isinstance(c.func, ast.Attribute) and c.func.attr == "_replace"
+                 and any(k.arg == "hfs" and isinstance(k.value, ast.Name) for k in c.keywords) and any(k.arg == "mfs" and isinstance(k.value, ast.Name) for k in c.keywords))
+    for c in A.calls(f.node):
+        if not (isinstance(c.func, ast.Attribute) and c.func.attr == "_replace"):
+            continue
+        kw = {k.arg: k.value for k in c.keywords if k.arg}
+        if not (isinstance(kw.get("hfs"), ast.Name) and isinstance(kw.get("mfs"), ast.Name) and isinstance(kw.get("struct"), ast.Name)):
+            continue
+        sname = None
+        for st_, v, k in b.get(kw["struct"].id, []):
+            if isinstance(v, ast.Call):
+                hit = [a_.id for a_ in list(v.args) + [k_.value for k_ in v.keywords] if isinstance(a_, ast.Name) and a_.id in sig_cands]
+                if hit:
+                    sname = hit[-1]
+        if sname is None and n_repl == 1:
+            others = [nm for nm in sig_cands]
+            sname = others[0] if len(others) == 1 else None
+        if sname is not None and (sname, kw["hfs"].id, kw["mfs"].id) not in found:
+            found.append((sname, kw["hfs"].id, kw["mfs"].id))
+    return found
+
+
 def run_L3(chk, rule="L3"):
     """signature, hard-fusion history and meta-fusion of a result are assembled from the same leg sequence"""
     prog = chk.prog
@@ -570,6 +611,33 @@ def run_L3(chk, rule="L3"):
     for mod, name, triples in sites:
         f = prog.func(mod, name)
         b = A.local_bindings(f.node)
+        # the (signature, hfs, mfs) triples are read off the results: `X._replace(struct=ST, hfs=H, mfs=M, ..)` with names H and M, and the
+        # signature sequence S that was handed to the call that produced ST (a local whose definition enumerates `.struct.s`)
+        sig_cands = {nm for nm, ds in b.items() if any(k == "assign" and v is not None and any(sg[0] == "struct.s" for sg in _segments(v, None)) for st_, v, k in ds)}
+        found = []
+        n_repl = sum(1 for c in A.calls(f.node) if isinstance(c.func, ast.Attribute) and c.func.attr == "_replace"
+                     and any(k.arg == "hfs" and isinstance(k.value, ast.Name) for k in c.keywords) and any(k.arg == "mfs" and isinstance(k.value, ast.Name) for k in c.keywords))
+        for c in A.calls(f.node):
+            if not (isinstance(c.func, ast.Attribute) and c.func.attr == "_replace"):
+                continue
+            kw = {k.arg: k.value for k in c.keywords if k.arg}
+            if not (isinstance(kw.get("hfs"), ast.Name) and isinstance(kw.get("mfs"), ast.Name) and isinstance(kw.get("struct"), ast.Name)):
+                continue
+            sname = None
+            for st_, v, k in b.get(kw["struct"].id, []):
+                if isinstance(v, ast.Call):
+                    hit = [a_.id for a_ in list(v.args) + [k_.value for k_ in v.keywords] if isinstance(a_, ast.Name) and a_.id in sig_cands]
+                    if hit:
+                        sname = hit[-1]
+            if sname is None and n_repl == 1:
+                # struct produced by a kernel that received the signature further up (tensordot): the unique candidate of the function
+                others = [nm for nm in sig_cands]
+                sname = others[0] if len(others) == 1 else None
+            if sname is not None:
+                found.append((sname, kw["hfs"].id, kw["mfs"].id))
+        if found:
+            seen_t = set()
+            triples = [t_ for t_ in found if not (t_ in seen_t or seen_t.add(t_))]
         for sname, hname, mname in triples:
             def val(nm):
                 vs = [v for st, v, k in b.get(nm, []) if v is not None and k == "assign"]
